@@ -10,7 +10,8 @@ from .proggen import diff_transcripts, KNOWN_KINDS
 
 # stderr texts of wild's own size-accounting checks (C23)
 ALLOC_RE = re.compile(r"Insufficient|Allocated too much space|Inconsistent allocation detected|"
-                      r"verify_resolution_allocation|Unexpected .*allocation|was not fully (used|written)|"
+                      r"verify_resolution_allocation|Didn't use up all allocated|validate_empty failed|"
+                      r"Unexpected .*allocation|was not fully (used|written)|"
                       r"Section `[^`]*` (is|was) too (small|big)")
 
 
@@ -30,7 +31,7 @@ def norm_err(text, keep=110):
         m = re.search(r"panicked at ([^:]+):", pick)
         return "panic@" + (m.group(1) if m else "?")
     pick = re.sub(r"^.*?error:\s*", "", pick)
-    pick = re.sub(r"(/[\w.+-]+)+", "<path>", pick)
+    pick = re.sub(r"(?<![\w.>])(/[\w.+-]+)+", "<path>", pick)
     pick = re.sub(r"0x[0-9a-fA-F]+", "<hex>", pick)
     pick = re.sub(r"\b(u\d+|exe|lib)_[A-Za-z0-9_]+", "<sym>", pick)
     pick = re.sub(r"\d+", "<n>", pick)
@@ -40,14 +41,16 @@ def norm_err(text, keep=110):
 
 def alloc_error(text):
     """The wild size-accounting message in `text` (normalised), or None."""
-    for ln in strip_ansi(text or "").splitlines():
-        if ALLOC_RE.search(ln):
+    lines = [ln for ln in strip_ansi(text or "").splitlines() if ALLOC_RE.search(ln)]
+    specific = [ln for ln in lines if "validate_empty failed" not in ln]
+    for ln in (specific or lines):
+        if True:
             ln = re.sub(r"^.*?error:\s*", "", ln.strip())
             ln = re.sub(r"\. Setting WILD_VERIFY_ALLOCATIONS.*$", "", ln)
-            ln = re.sub(r"(/[\w.+-]+)+", "<path>", ln)
+            ln = re.sub(r"(?<![\w.>])(/[\w.+-]+)+", "<path>", ln)
             ln = re.sub(r"\b(u\d+|exe|lib)_[A-Za-z0-9_]+", "<sym>", ln)
             ln = re.sub(r"\d+", "<n>", ln)
-            return ln[:120]
+            return ln.strip()[:120]
     return None
 
 
